@@ -12,7 +12,8 @@ import (
 var minimal = funcGen.New[float64]().
 	SetComfort(true).
 	AddConstant("pi", math.Pi).
-	AddSimpleOp("=", true, func(a, b float64) (float64, error) { return fromBool(a == b), nil }).
+	// not associative: (a=4)=2 is not a=(4=2), so the optimizer must not regroup it
+	AddSimpleOp("=", false, func(a, b float64) (float64, error) { return fromBool(a == b), nil }).
 	AddSimpleOp("<", false, func(a, b float64) (float64, error) { return fromBool(a < b), nil }).
 	AddSimpleOp(">", false, func(a, b float64) (float64, error) { return fromBool(a > b), nil }).
 	AddSimpleOp("+", true, func(a, b float64) (float64, error) { return a + b, nil }).
